@@ -97,6 +97,17 @@ func (m *MatchWinbox) Match(cx *layer4.Connection) (bool, error) {
 	// Parse MessageAuth
 	msg := &MessageAuth{}
 	if err = msg.FromBytes(buf[:n+2]); err != nil {
+		// A full first chunk may be followed by another chunk that has not been received completely yet.
+		// Ask for more data instead of rejecting a message that may match once it is complete.
+		if int(hdr[0]) == MessageChunkBytesMax {
+			if n == MessageChunkBytesMax {
+				return false, layer4.ErrConsumedAllPrefetchedBytes
+			}
+			need := MessageChunkBytesMax + 2 + int(buf[MessageChunkBytesMax+2])
+			if n < need && need <= l && (&MessageAuth{}).FromBytes(buf[:MessageChunkBytesMax+2]) != nil {
+				return false, layer4.ErrConsumedAllPrefetchedBytes
+			}
+		}
 		return false, nil
 	}
 
